@@ -307,7 +307,7 @@ theorem C03_manager_restart_complete (w : World) (fp fq : Int) (fc cr : List (Na
     (by
       intro e he
       rw [hb] at hbox2
-      rcases hbox2 with hbox2 | ⟨hbox2, _⟩
+      rcases hbox2 with hbox2 | hbox2
       · rw [← Option.some.inj hbox2]
         exact hrec e he
       · cases hbox2)
